@@ -42,6 +42,15 @@ def per_shape(sh, out, rng, ty):
         out.append(f"expand_dims@{ty} {a} {lst([x, y])}")
         if rng.random() < 0.5:
             out.append(f"squeeze@{ty} {a} {lst([x, y])}")
+    # axis lists of three entries, repeated and non-adjacent repeats in both spellings included (seeded change C07h:
+    # dedup before sort leaves [0, 2, 0] with a repeated axis)
+    trip = list(itertools.product(range(-n, n), repeat=3))
+    if len(trip) > 64:
+        trip = rng.sample(trip, 64) + [(0, n - 1, 0), (0, n - 1, -n), (-1, 0, n - 1), (n - 1, 0, -1)]
+    for t in trip:
+        out.append(f"squeeze@{ty} {a} {lst(t)}")
+        if rng.random() < 0.3:
+            out.append(f"expand_dims@{ty} {a} {lst(t)}")
     out.append(f"expand_dims@{ty} {a} l")
     out.append(f"expand_dims@{ty} {a} {lst([0, 1, 2])}")
     out.append(f"expand_dims@{ty} {a} {lst([-1, -2, -3])}")
@@ -64,7 +73,7 @@ def gen(seed, tier):
     for sh in ([1, 1], [1, 1, 1], [1, 5, 1], [4, 1, 1, 2], [1, 1, 1, 1], [6], [1], [2, 6]):
         per_shape(sh, out, rng, "i64")
     # larger element counts (blocked copies, doubling growth)
-    for sh in ([17], [33], [64], [100], [2, 17], [4, 8], [3, 5, 7]):
+    for sh in ([17], [33], [64], [100], [2, 17], [4, 8], [3, 5, 7], [257], [300], [16, 17], [3, 100], [1100], [5, 7, 9]):
         cnt = prod(sh)
         a = arr(sh)
         out.append(f"ravel {a}")
